@@ -25,4 +25,10 @@ def run_selftests(pid, root, ana):
         res["composed"]["undecided_sample"] = c["undecided_list"][:8]
         for m in c["masked_list"]:
             res["errors"].append(f"composition {m}: the mutant is reported on the plain tree but masked after the refactoring")
+        # mechanical twins: identities of the language applied at one site each (sa/selftest/mechanical.py) must stay silent
+        from .selftest import mechanical
+        m_ = mechanical.run(root, pid, ana)
+        res["mechanical_twins"] = {k: v for k, v in m_.items() if k != "not_silent"}
+        for b in m_["not_silent"]:
+            res["errors"].append(f"mechanical twin {b}: a behaviour-preserving rewrite raises a VIOLATION")
     return res
